@@ -4,6 +4,7 @@ import GormModel.Gen.GuardWhereFacts
 import GormModel.Model.Scopes
 import GormModel.Model.UpdateKeys
 import GormModel.Model.GuardMode
+import GormModel.Model.AssocGuard
 open Lean
 namespace Gorm.Drv
 
@@ -58,6 +59,11 @@ def handleC09 (op : String) (args : Array Json) : Option Json := do
     let rej := guardRuns Gen.guardOuterConds m ag false &&
       finRejectedUpd Gen.guardRejectsEmptyWhere updateKeyCodeOfFacts { cfg with allowGlobal := false } s vk same
     some (Json.mkObj [("rejected", Json.bool rej), ("keys", natJ (updateKeysOf updateKeyCodeOfFacts mk vk same).length)])
+  | "c09.sentbefore" =>
+    -- ["c09.sentbefore", "update"|"delete", belongsToValues, selectedM2M] -> statements sent before the guard's handler
+    let pl ← jStr? (arg args 1)
+    let i : AssocInput := { belongsToValues := ← jNat? (arg args 2), selectedM2M := ← jNat? (arg args 3) }
+    some (natJ (sentBeforeGuard (pipelineRegs pl) (if pl == "update" then "Update" else "Delete") i))
   | "c09.r4facts" =>
     some (Json.mkObj [("scopesThreaded", Json.bool Gen.scopesThreaded), ("guardOuterConds", strListJ Gen.guardOuterConds),
       ("guardReads", strListJ Gen.guardReads), ("updateValueKeyGuard", strListJ Gen.updateValueKeyGuard),
